@@ -352,8 +352,9 @@ class Harness(cm.BaseA):
     def file_pass(self, W, config):
         """re-run the same history inside a `with` block; the file must hold exactly the replayed records"""
         V = []
-        base = "/dev/shm" if os.path.isdir("/dev/shm") and os.access("/dev/shm", os.W_OK) else None
-        d = tempfile.mkdtemp(prefix="rtmc-c03-", dir=base)
+        from ..engine import run_tmp
+
+        d = tempfile.mkdtemp(prefix="c03-", dir=run_tmp())
         try:
             path = os.path.join(d, "abort.gwl")
             ws = config["worklists"]["w"]
